@@ -20,6 +20,10 @@ TAG_MIME = b'x.sim/tag'
 def gen_routing(seed, opts=None):
     rng = random.Random(seed ^ 0x2077E)
     names = ['r%d' % i for i in range(6)] + ['a.b', 'x/y/z', 'R0']
+    if rng.random() < 0.4:
+        # route names are text: multi-byte characters, names that are prefixes of each other, long names
+        names += rng.sample(['pedido.caf\u00e9', 'pedido.caf\u00e9s', '\u6ce8\u6587.\u4e00\u89a7', 'usu\u00e1rios.list', 'r10', 'r1.', 'n' * 200,
+                             '\u00e9' * 100, 'a.b.c'], 4)
     table = {}
     unknown = {}
     for t in TYPES:
